@@ -92,6 +92,24 @@ def compare(ctx, cfg, coal, pg, T, dim_max, rng, label=''):
                           tolerance=tol, oracle='Lean model accumulateModel with fixExp')
 
 
+def via_inference(pg, cfg, rng):
+    m = cfg['model']
+    eps_ = 2.0 ** -rng.choice([18, 22])
+    key = 'alpha' if m[0] == 'beta' else rng.choice(['psi', 'c'])
+    val = {'alpha': m[1], 'psi': m[1], 'c': m[2] if m[0] == 'dirac' else None}[key]
+
+    def mk(**kw):
+        v = kw[key]
+        model = ('beta', v) + tuple(m[2:]) if m[0] == 'beta' else \
+            (('dirac', v, m[2]) + tuple(m[3:]) if key == 'psi' else ('dirac', m[1], v) + tuple(m[3:]))
+        return conv.make_coalescent(pg, dict(cfg, model=model))
+    x0 = val * (1 + eps_) if val != 0 else eps_
+    inf = pg.Inference(bounds={key: (0.0, 1e9)}, x0={key: x0}, coal=mk, loss=lambda c, o: 0.0, parallelize=False, pbar=False,
+                       seed=0, cache=True, n_runs=1)
+    inf.get_coal(**{key: x0}).tree_height.mean          # the shared state space has been used for the neighbouring model
+    return inf.get_coal(**{key: val})
+
+
 def one(ctx, i):
     pg = C.import_phasegen()
     rng = random.Random(f'{ctx.seed}-c01-{i}')
@@ -107,6 +125,11 @@ def one(ctx, i):
         if rng.random() < 0.4:
             cfg['start_time'] = cfg['end_time'] / rng.choice([2, 4, 8])
     coal = conv.make_coalescent(pg, cfg)
+    if cfg['model'][0] in ('beta', 'dirac') and rng.random() < 0.3:
+        # the same configuration obtained through Inference.get_coal (default state-space caching), after the inference object
+        # was set up for a model whose parameter differs by a hair: the Coalescent handed out must be the one asked for
+        coal = via_inference(pg, cfg, rng)
+        ctx.count('via-Inference.get_coal')
     with C.LogCapture() as lc:
         T = coal.tree_height.t_max
     if lc.records:
